@@ -194,12 +194,20 @@ func genSpec(r *hxlib.Run, rng *rand.Rand, kind string) Spec {
 				if rng.Intn(10) == 0 {
 					ne = 0
 				}
+				if rng.Intn(5) == 0 {
+					ne = 1
+				}
 				op := Op{Kind: "tr", Org: rng.Intn(3)}
 				for e := 0; e < ne; e++ {
 					item++
 					op.Entries = append(op.Entries, EntOp{Lvl: 1 + rng.Intn(6), Item: item})
 				}
 				prog = append(prog, op)
+				if ne == 1 && rng.Intn(2) == 0 {
+					// the same one-entry submission again: two identical main lines in a row, and tracer lines
+					// are never merged (without a tracer these are two identical plain calls, which may be)
+					prog = append(prog, op)
+				}
 			default:
 				item++
 				op := Op{Kind: "log", Lvl: 1 + rng.Intn(6), Org: rng.Intn(3), Item: item, Reps: 1}
@@ -215,12 +223,15 @@ func genSpec(r *hxlib.Run, rng *rand.Rand, kind string) Spec {
 				}
 				prog = append(prog, op)
 				// twin: the same message again at another severity (another call site): must NOT be merged
-				if rng.Intn(8) == 0 {
+				switch rng.Intn(12) {
+				case 0:
 					tw := op
 					tw.Lvl = 1 + (op.Lvl+rng.Intn(5))%6
-					if tw.Lvl != op.Lvl {
-						prog = append(prog, tw)
-					}
+					prog = append(prog, tw)
+				case 1: // same message and severity from the other call site (plain ↔ formatted)
+					tw := op
+					tw.Kind = map[string]string{"log": "logf", "logf": "log"}[op.Kind]
+					prog = append(prog, tw)
 				}
 			}
 		}
@@ -598,6 +609,11 @@ func (rr *runRec) verdict() string {
 	for _, o := range rr.outs {
 		if o.gid >= rr.np {
 			return fmt.Sprintf("fail unexpected g%d i%d", o.gid, o.item)
+		}
+	}
+	for _, o := range rr.outs {
+		if o.tracer && o.dups > 0 { // a second submission was merged away together with its collected lines
+			return fmt.Sprintf("fail trace g%d i%d", o.gid, o.item)
 		}
 	}
 	for g := 0; g < rr.np; g++ {
